@@ -54,6 +54,7 @@ type task struct {
 	epoch   uint64 // unlock epoch at park time (mutex waiters)
 	forever bool
 	group   string
+	key     uint64 // scheduling order key: creation order stamp taken by the *creator* (deterministic), else goroutine id
 }
 
 type Sim struct {
@@ -86,6 +87,8 @@ type Sim struct {
 	start        time.Time
 
 	procLocals map[string]any
+	ords       map[uint64]uint64 // goroutine id -> order stamp
+	nextOrd    uint64
 	groups    map[uint64]string // goroutine id -> node/group (inherited from the creating goroutine)
 	deadGroup map[string]bool
 	yieldHook func(label string) // optional observer (probes)
@@ -101,7 +104,7 @@ func Current() *Sim { return cur }
 // seed. replay != nil: every decision is read from it (0 once exhausted).
 func New(seed uint64, replay []int32, pol Policy, tracing bool) *Sim {
 	s := &Sim{rng: rand.New(rand.NewPCG(seed, 0x5eed5eed5eed)), pol: pol, tracing: tracing, hash: 14695981039346656037, SchedHash: 14695981039346656037,
-		groups: map[uint64]string{}, deadGroup: map[string]bool{}}
+		groups: map[uint64]string{}, deadGroup: map[string]bool{}, ords: map[uint64]uint64{}}
 	if replay != nil {
 		s.replay = replay
 		s.replayMode = true
@@ -255,7 +258,11 @@ func park(label string, mutex bool) {
 		grp = s.groups[parent]
 		s.groups[g] = grp
 	}
-	t := &task{gid: g, label: label, wake: make(chan struct{}), mutex: mutex, epoch: s.unlockEpoch, group: grp}
+	key, stamped := s.ords[g]
+	if !stamped {
+		key = 1<<40 + g // goroutines without a creator stamp: their ids are monotone in creation order among themselves
+	}
+	t := &task{gid: g, label: label, wake: make(chan struct{}), mutex: mutex, epoch: s.unlockEpoch, group: grp, key: key}
 	s.parked = append(s.parked, t)
 	s.mu.Unlock()
 	<-t.wake
@@ -289,7 +296,7 @@ func creatorGid() uint64 {
 // Start is the first statement the rewriter puts into every goroutine the
 // simulated packages spawn: it fixes the goroutine's group to the one its
 // creator had *at the go statement* and parks.
-func Start(label string, grp string) {
+func Start(label string, grp string, ord uint64) {
 	s := active()
 	if s == nil {
 		return
@@ -297,16 +304,34 @@ func Start(label string, grp string) {
 	g := goid()
 	s.mu.Lock()
 	s.groups[g] = grp
+	if ord != 0 {
+		s.ords[g] = ord
+	}
 	s.mu.Unlock()
 	park(label, false)
 }
 
+// NextOrd returns the next creation-order stamp. The creator takes it at the go
+// statement / when it arms a timer - points that happen in deterministic program
+// order - because the order in which new goroutines (in particular the runtime's
+// timer goroutines with equal deadlines) first run is the Go runtime's business.
+func NextOrd() uint64 {
+	s := active()
+	if s == nil {
+		return 0
+	}
+	s.mu.Lock()
+	defer s.mu.Unlock()
+	s.nextOrd++
+	return s.nextOrd
+}
+
 // WrapE wraps the function literal handed to an errgroup-style Go method.
 func WrapE[T any](label string, f func() T) func() T {
-	grp := Group()
+	grp, ord := Group(), NextOrd()
 	return func() (res T) {
 		defer Recover(label)
-		Start(label, grp)
+		Start(label, grp, ord)
 		return f()
 	}
 }
@@ -462,13 +487,10 @@ func Waited[T any](label string, v T) T {
 // Callback wraps the function handed to time.AfterFunc: the timer goroutine
 // parks before doing anything, and a panic in it is recorded, not fatal.
 func Callback(label string, f func()) func() {
-	grp := Group() // timer goroutines have no creating goroutine: inherit from the registrant
+	grp, ord := Group(), NextOrd() // timer goroutines have no creating goroutine: stamped by the registrant
 	return func() {
 		defer Recover(label)
-		if grp != "" {
-			SetGroup(grp)
-		}
-		park(label, false)
+		Start(label, grp, ord)
 		f()
 	}
 }
@@ -595,7 +617,7 @@ const (
 // first, then goroutine-creation order (deterministic across processes; the
 // absolute ids are not and never reach the log).
 func (s *Sim) enabledLocked() []*task {
-	sort.Slice(s.parked, func(i, j int) bool { return s.parked[i].gid < s.parked[j].gid })
+	sort.Slice(s.parked, func(i, j int) bool { return s.parked[i].key < s.parked[j].key })
 	var en []*task
 	anyNonMutex := false
 	for _, t := range s.parked {
